@@ -3,7 +3,7 @@
 
 *)
 From Coq Require Import ZArith NArith List Bool Arith.
-From NSG Require Import Base.Prelude Model.Defender Model.Coord Proofs.CoordBase Proofs.CoordInv Proofs.CoordInvConn Proofs.CoordInvDispatch Proofs.CoordInvHandler Proofs.CoordProps Proofs.CoordDirect Proofs.CoordInv2 Proofs.CoordAgentStep.
+From NSG Require Import Base.Prelude Model.Defender Model.Coord Proofs.CoordBase Proofs.CoordInv Proofs.CoordInvConn Proofs.CoordInvDispatch Proofs.CoordInvHandler Proofs.CoordProps Proofs.CoordDirect Proofs.CoordInv2 Proofs.CoordAgentStep Proofs.CoordBarrier.
 Import ListNotations.
 
 (* the reset task does nothing unless the game is non-empty and every agent in it has asked *)
@@ -103,6 +103,22 @@ Theorem C07_request_handler :
          @In (@handler V G) h (@handlers V W G s) /\ @h_addr V G h = c /\ @waiting_reset V G h.
 Proof. exact (@request_has_handler_reachable). Qed.
 
+(* in every reachable idle state an agent waiting for RESET_DONE coexists with an agent that has not asked (the reset barrier is never stuck on the server side) *)
+Theorem C07_unmet :
+  forall (V W G : Type) (wstep : W -> V -> G -> W * V) (wreset : W -> W) (winit : W -> role -> W * V)
+         (goal : role -> V -> bool) (detect : list G -> G -> bool) (cfg : config) 
+         (w : W) (ls : list (@label G)) (s : @state V W G) (h : @handler V G),
+       @execs V W G wstep wreset winit goal detect cfg (@init_state V W G w) ls = @Some (@state V W G) s ->
+       @quiescent V W G wstep winit goal detect cfg s = true ->
+       @In (@handler V G) h (@handlers V W G s) ->
+       match @h_pc V G h with
+       | PRewards false _ _ => @some_not_ended V W G s
+       | PResetDone false _ => @some_not_asked V W G s
+       | PJoinStart false _ | PResetStart false _ => @ev_start V W G s = false
+       | _ => True
+       end.
+Proof. exact (@idle_barriers_unmet). Qed.
+
 (* only the reset task clears a request *)
 Theorem C07_cleared_by_reset :
   forall (V G : Type) (cfg : config) (a a' : @agent V G) (l : @label G),
@@ -131,4 +147,5 @@ Print Assumptions C07_fresh.
 Print Assumptions C07_done.
 Print Assumptions C07_request_stays.
 Print Assumptions C07_request_handler.
+Print Assumptions C07_unmet.
 Print Assumptions C07_cleared_by_reset.
